@@ -57,6 +57,9 @@ pub enum Site {
     /// Asks whether the entry at (permuted) index `arg` of the directory
     /// just read should be replaced by an I/O error.
     ReaddirFault = 14,
+    /// About to operate on state shared between the caller's worker threads
+    /// (see the `sync` module); `arg` is 0 for a read, 1 for a write.
+    Shared = 15,
 }
 
 static EVENT_FN: AtomicUsize = AtomicUsize::new(0);
@@ -146,4 +149,67 @@ pub(crate) fn readdir(
         }
     }
     ents.into_iter()
+}
+
+/// Drop-in replacements for the std types that hold state shared between
+/// worker threads in the caller's code. Every operation reports
+/// [`Site::Shared`] first, so that a scheduler can interleave other workers
+/// between any two operations.
+pub mod sync {
+    use std::sync::atomic::Ordering;
+
+    use super::{event, Site};
+
+    /// A boolean flag shared between threads.
+    #[derive(Debug, Default)]
+    pub struct AtomicBool(std::sync::atomic::AtomicBool);
+
+    impl AtomicBool {
+        /// Creates a new flag.
+        pub const fn new(v: bool) -> AtomicBool {
+            AtomicBool(std::sync::atomic::AtomicBool::new(v))
+        }
+
+        /// See `std::sync::atomic::AtomicBool::load`.
+        pub fn load(&self, order: Ordering) -> bool {
+            event(Site::Shared, 0);
+            self.0.load(order)
+        }
+
+        /// See `std::sync::atomic::AtomicBool::store`.
+        pub fn store(&self, v: bool, order: Ordering) {
+            event(Site::Shared, 1);
+            self.0.store(v, order)
+        }
+
+        /// See `std::sync::atomic::AtomicBool::swap`.
+        pub fn swap(&self, v: bool, order: Ordering) -> bool {
+            event(Site::Shared, 1);
+            self.0.swap(v, order)
+        }
+
+        /// See `std::sync::atomic::AtomicBool::fetch_or`.
+        pub fn fetch_or(&self, v: bool, order: Ordering) -> bool {
+            event(Site::Shared, 1);
+            self.0.fetch_or(v, order)
+        }
+
+        /// See `std::sync::atomic::AtomicBool::fetch_and`.
+        pub fn fetch_and(&self, v: bool, order: Ordering) -> bool {
+            event(Site::Shared, 1);
+            self.0.fetch_and(v, order)
+        }
+
+        /// See `std::sync::atomic::AtomicBool::compare_exchange`.
+        pub fn compare_exchange(
+            &self,
+            current: bool,
+            new: bool,
+            success: Ordering,
+            failure: Ordering,
+        ) -> Result<bool, bool> {
+            event(Site::Shared, 1);
+            self.0.compare_exchange(current, new, success, failure)
+        }
+    }
 }
